@@ -25,12 +25,18 @@ Report(what, detail, devs) ==
 Check(r) ==
   IF r.ev = "Panic" THEN Report("panic", r.msg, {})
   ELSE
-  LET bad == NB!Monitor(r.log)
-      drift == \E i \in 1..Len(r.log) : r.log[i].k = "unscripted"
+  \* "unscripted": the client went to the bus where the script (steered by the client model) has no reply for it, and the
+  \* harness then abandoned that API call in mid-flight to go on with the script.  Cancelling a call half-way is outside
+  \* the property's statement (calls are made at quiescent points), and what the client's table holds afterwards cannot be
+  \* compared with the monitor's knowledge any more: only the log up to that point is judged; the rest is reported as DRIFT.
+  LET U == {i \in 1..Len(r.log) : r.log[i].k = "unscripted"}
+      drift == U # {}
+      judged == IF drift THEN SubSeq(r.log, 1, (CHOOSE i \in U : \A j \in U : i <= j) - 1) ELSE r.log
+      bad == NB!Monitor(judged)
   IN
   /\ (drift => PrintT(<<"DRIFT", ToJson([line |-> l, id |-> rec.id, what |-> "unscripted-bus-call"])>>))
   /\ IF bad = <<>> THEN TRUE
-     ELSE LET expl == {d \in NB!KnownDevs : NB!ClientExplains(r.log, {d})} IN
+     ELSE LET expl == {d \in NB!KnownDevs : NB!ClientExplains(judged, {d})} IN
           \A i \in 1..Len(bad) : Report(bad[i].clause, [at |-> bad[i].at, info |-> bad[i].detail], expl)
 
 Inv == Check(rec) \/ TRUE
